@@ -194,6 +194,9 @@ func exchange(s *tlsx.Session, pan *[]string, pmu *sync.Mutex) {
 			pmu.Lock()
 			*pan = append(*pan, fmt.Sprintf("%s: %s @ %s", who, ev.MsgClass(msg), site))
 			pmu.Unlock()
+			// the panicking side will not close its connection any more: close the transport, or its peer stays parked
+			s.Net.CloseDir(tlsx.C2S)
+			s.Net.CloseDir(tlsx.S2C)
 		}
 	}
 	wg.Add(1)
@@ -307,7 +310,7 @@ func (j job) describe() map[string]any {
 	switch {
 	case j.special != "":
 		return map[string]any{"special": j.special}
-	case j.k != nil:
+	case j.kcf != nil:
 		return map[string]any{"keyed_config": j.kcf.name, "keyed": j.k}
 	case j.raw != nil:
 		return map[string]any{"raw_peer_against": j.raw.role, "stream_hex": fmt.Sprintf("%x", j.raw.stream), "raw_config": j.raw.conf, "raw_ssl3": j.raw.ssl3}
@@ -652,6 +655,8 @@ type meta struct {
 	Total     int                 `json:"total"`
 	Baselines int64               `json:"baselines"`
 	Broken    string              `json:"broken,omitempty"`
+	// a panic in an UNFAULTED handshake is a violation too (reported before the run stops as broken)
+	BaselineViol []violRec `json:"baseline_viol,omitempty"`
 }
 
 // buildJobs enumerates every case; only those with keep(index) are retained (all workers enumerate the same list).
@@ -688,6 +693,9 @@ func buildJobs(thorough bool, keep func(i int) bool) ([]job, meta) {
 		if string(b1.streams[0]) != string(b2.streams[0]) || string(b1.streams[1]) != string(b2.streams[1]) {
 			broken("baseline transcript of %s is not reproducible", cf.name)
 		}
+		for _, p := range b1.panics {
+			m.BaselineViol = append(m.BaselineViol, violRec{"panic: " + p, job{cf: cf}.describe()})
+		}
 		if b1.cls != "client=ok server=ok stalled=false" || len(b1.panics) > 0 {
 			broken("baseline of %s did not complete: %s %v", cf.name, b1.cls, b1.panics)
 		}
@@ -706,6 +714,9 @@ func buildJobs(thorough bool, keep func(i int) bool) ([]job, meta) {
 		b1 := runKeyed(*kcf, nil)
 		b2 := runKeyed(*kcf, nil)
 		m.Baselines += 2
+		for _, p := range b1.panics {
+			m.BaselineViol = append(m.BaselineViol, violRec{"panic: " + p, job{kcf: kcf}.describe()})
+		}
 		if b1.desync != "" {
 			broken("keyed baseline of %s: the proxy lost the key schedule: %s", kcf.name, b1.desync)
 		}
@@ -808,7 +819,7 @@ func runJob(j job) jobOut {
 	switch {
 	case j.special != "":
 		return jobOut{o: runSpecial(j.special)}
-	case j.k != nil:
+	case j.kcf != nil:
 		ko := runKeyed(*j.kcf, j.k)
 		return jobOut{o: ko.outcome, ko: &ko}
 	case j.raw != nil:
@@ -839,7 +850,7 @@ func (r *result) record(j job, jo jobOut) {
 	for _, p := range o.panics {
 		r.Viol = append(r.Viol, violRec{"panic: " + p, j.describe()})
 	}
-	if jo.ko != nil {
+	if jo.ko != nil && j.k != nil {
 		r.Records += int64(jo.ko.delivered[0] + jo.ko.delivered[1])
 		reached, cls := receiverVerdict(j.k, jo.ko)
 		r.Hist["keyed "+cls]++
@@ -862,6 +873,12 @@ func (r *result) record(j job, jo jobOut) {
 }
 
 func (r *result) rerunSuspects(suspects []job) {
+	if len(suspects) > 4 {
+		// a genuine hang in a common path makes hundreds of cases suspect; four verdicts (3 x 60 s each) are enough
+		r.Incomplete = append(r.Incomplete, fmt.Sprintf("%d further cases exceeded 20 s and were not re-run", len(suspects)-4))
+		r.Suspects += len(suspects) - 4
+		suspects = suspects[:4]
+	}
 	for _, j := range suspects {
 		hung := 0
 		for k := 0; k < 3; k++ {
@@ -914,7 +931,7 @@ func jobFromWitness(raw json.RawMessage) (job, error) {
 		return job{special: w.Special}, nil
 	case w.KConf != "":
 		for _, kcf := range kconfs(true) {
-			if kcf.name == w.KConf && w.Keyed != nil {
+			if kcf.name == w.KConf {
 				kcf := kcf
 				return job{kcf: &kcf, k: w.Keyed}, nil
 			}
